@@ -28,6 +28,7 @@ def plan(prop, tier, seed):
     if prop in ("C01", "C02", "C03", "C04", "C05", "C07", "C08", "C10", "C13", "C20", "C19"):
         jobs += _hist(prop, S(n_short), nops=nops, alpha="short")
         jobs += _hist(prop, S(n_long, 5000), nops=nops, alpha="long")
+        jobs += _hist(prop, S(n_long // 2, 7000), nops=nops, alpha="sameblock")
         jobs += _hist(prop, S(n_short // 3, 9000), nops=nops, alpha="tiny")
         jobs += _exh(prop, 2 if q else 3)
     if prop == "C04":
